@@ -165,7 +165,24 @@ pub fn create_mint_2022_ext(l: &mut Ledger, payer: &Pubkey, mint: &Pubkey, autho
 /// account's extension list although its type number is the highest), 2 = initialised after the others
 #[allow(clippy::too_many_arguments)]
 pub fn create_mint_2022_full(l: &mut Ledger, payer: &Pubkey, mint: &Pubkey, authority: &Pubkey, decimals: u8, fee: Option<(u16, u64)>, freeze: Option<&Pubkey>, hook: bool, meta_ptr: u8) {
+    create_mint_2022_badged(l, payer, mint, authority, decimals, fee, freeze, hook, meta_ptr, 0)
+}
+
+/// `extras`: bit 0 MintCloseAuthority, bit 1 PermanentDelegate, bit 2 DefaultAccountState (Initialized) - extensions the
+/// program admits only with a token badge; they come first in the list (bit 3: last) and change the mint's length - some
+/// combinations hit the length Token-2022 pads by two bytes to keep mints apart from multisig accounts
+#[allow(clippy::too_many_arguments)]
+pub fn create_mint_2022_badged(l: &mut Ledger, payer: &Pubkey, mint: &Pubkey, authority: &Pubkey, decimals: u8, fee: Option<(u16, u64)>, freeze: Option<&Pubkey>, hook: bool, meta_ptr: u8, extras: u8) {
     let mut exts = Vec::new();
+    if extras & 1 != 0 {
+        exts.push(ExtensionType::MintCloseAuthority);
+    }
+    if extras & 2 != 0 {
+        exts.push(ExtensionType::PermanentDelegate);
+    }
+    if extras & 4 != 0 {
+        exts.push(ExtensionType::DefaultAccountState);
+    }
     if matches!(meta_ptr, 1 | 2 | 4 | 5 | 6) {
         exts.push(ExtensionType::MetadataPointer);
     }
@@ -197,6 +214,19 @@ pub fn create_mint_2022_full(l: &mut Ledger, payer: &Pubkey, mint: &Pubkey, auth
         6 => &['h', 'm', 'f'],
         _ => &['f', 'h'],
     };
+    let mut extra_ixs: Vec<rt::Ix> = Vec::new();
+    if extras & 1 != 0 {
+        extra_ixs.push(ix::from_sol(spl_token_2022::instruction::initialize_mint_close_authority(&ix::tok22(), mint, Some(authority)).unwrap()));
+    }
+    if extras & 2 != 0 {
+        extra_ixs.push(ix::from_sol(spl_token_2022::instruction::initialize_permanent_delegate(&ix::tok22(), mint, authority).unwrap()));
+    }
+    if extras & 4 != 0 {
+        extra_ixs.push(ix::from_sol(spl_token_2022::extension::default_account_state::instruction::initialize_default_account_state(&ix::tok22(), mint, &spl_token_2022::state::AccountState::Initialized).unwrap()));
+    }
+    if extras & 8 == 0 {
+        ixs.append(&mut extra_ixs);
+    }
     for o in order {
         match o {
             'm' => ixs.push(meta_ix()),
@@ -212,7 +242,8 @@ pub fn create_mint_2022_full(l: &mut Ledger, payer: &Pubkey, mint: &Pubkey, auth
             }
         }
     }
-    ixs.push(ix::from_sol(spl_token_2022::instruction::initialize_mint2(&ix::tok22(), mint, authority, freeze, decimals).unwrap()));
+    ixs.append(&mut extra_ixs);
+    ixs.push(ix::from_sol(spl_token_2022::instruction::initialize_mint2(&ix::tok22(), mint, authority, freeze.or(if extras & 4 != 0 { Some(authority) } else { None }), decimals).unwrap()));
     must(l, ixs, "create_mint_2022");
     if hook {
         // ExtraAccountMetaList for the Execute instruction with zero extra accounts:
